@@ -145,8 +145,11 @@ def check(ctx, m, gen, rng, tags):
     if getattr(gen, "background", {}).get("expand_vectors"):
         return          # a second simplify() of an expanded model raises AttributeError today, for every variant alike
     stage2 = rng.choice(STAGE2)
+    # the later call either repeats the representation options or names only what it wants done now
+    repeat = rng.random() < 0.5
+    ctx.cover("second-stage:" + ("repeats-the-representation-options" if repeat else "names-only-its-own-options"))
     for combo, model in variants.items():
-        opts = {"unroll_loops": combo[0], "inline_functions": combo[1], "expand_mx": combo[2]}
+        opts = {"unroll_loops": combo[0], "inline_functions": combo[1], "expand_mx": combo[2]} if repeat else {}
         try:
             model.simplify(dict(opts, **stage2))
         except Exception as e:
